@@ -41,7 +41,7 @@ var allSolvers = []solverSpec{
 	}},
 }
 
-var solverSem = make(chan struct{}, 24)
+var solverSem = make(chan struct{}, 16)
 
 func parseVerdict(out string) string {
 	for _, line := range strings.Split(out, "\n") {
